@@ -230,7 +230,7 @@ func c14Behaviours(c *sim.Case) (*sim.Behaviour, string) {
 }
 
 var c14Profile = opProfile{
-	browsers: 2, wNav: 5, wLogin: 5, wAuthorize: 1, wCallback: 1, wLogout: 2, wAdvance: 5, wIdP: 5, wAttack: 3,
+	browsers: 3, wNav: 5, wLogin: 5, wAuthorize: 1, wCallback: 1, wLogout: 2, wAdvance: 5, wIdP: 5, wAttack: 3,
 	attacks:    []string{"no-cookie", "unknown-id", "garbage-cookie", "stale-id", "pending-id-app", "replay-callback", "forged-callback"},
 	behaviours: c14Behaviours,
 }
